@@ -9,6 +9,8 @@ import Rare.Proofs.C15Flush
 import Rare.Proofs.C15MultiTail
 import Rare.Proofs.C15TraceTail
 import Rare.Proofs.C15Trunc
+import Rare.Proofs.C15Starve
+import Rare.Model.C15Wiring
 import Rare.Gen.C15
 /-!
 # C15 — follow mode delivers every appended byte exactly once, in order
@@ -961,6 +963,94 @@ theorem batch_reuse_breaks_stability :
     seeded.out.map (·.start) = [1, 2] := by
   decide
 
+
+/-! ## the wiring: from the command line to the follow reader -/
+
+section Wiring
+open Rare.C15.Wiring
+
+/-- The chain command line → `TailFilesToChan` → `followreader.New` → `NewNotify` / `NewPolling` regenerated from
+    /repo is the one `Rare.C15.Wiring.plan` was written against: `-F` implies following, `--poll` / `--tail`
+    without `-f`/`-F` are usage errors, the one call site passes `(reopen, poll, tail)` in the order of
+    `TailFilesToChan`'s parameters, `New` passes `reopen` on and lets `poll` choose the reader, both
+    constructors open `filename`, fail on a missing file exactly when `!reopen`, and store `reopen` in their
+    option field; the poller's defaults are the model's; and `TailFilesToChan` starts one goroutine per
+    file name with nothing but `wg` between them (no semaphore: `--readers` does not limit followed files). -/
+theorem wiring_matches_source :
+    Gen.C15.cliFollowFlags = Expected.cliFollowFlags ∧
+    Gen.C15.cliFollowVars = Expected.cliFollowVars ∧
+    Gen.C15.cliFatals = Expected.cliFatals ∧
+    Gen.C15.cliBatcherConds = Expected.cliBatcherConds ∧
+    Gen.C15.cliBatcherCalls = Expected.cliBatcherCalls ∧
+    Gen.C15.tailFilesParams = Expected.tailFilesParams ∧
+    Gen.C15.tailFilesSkeleton = Expected.tailFilesSkeleton ∧
+    Gen.C15.tailFilesBookkeeping = Expected.tailFilesBookkeeping ∧
+    Gen.C15.followNewParams = Expected.followNewParams ∧
+    Gen.C15.followNewBody = Expected.followNewBody ∧
+    Gen.C15.newNotifyWiring = Expected.newNotifyWiring ∧
+    Gen.C15.newPollingWiring = Expected.newPollingWiring ∧
+    Gen.C15.readAttempts = defaultAttempts ∧ Gen.C15.pollDelayMs = defaultDelayMs := by
+  refine ⟨rfl, rfl, rfl, rfl, rfl, rfl, rfl, rfl, rfl, rfl, rfl, rfl, rfl, rfl⟩
+
+/-- `plan` in closed form, for all sixteen flag combinations: without `-f`/`-F` the files are read once (and
+    `--poll` / `--tail` are refused); with either, every file is followed by the notify reader, or the polling
+    reader iff `--poll`, with re-open iff `-F` and from its end iff `--tail`. -/
+theorem wiring_plan (fl : Flags) :
+    plan fl = if fl.follow || fl.reopen then
+        .follow ⟨if fl.poll then .poll else .notify, fl.reopen, fl.tail⟩
+      else if fl.poll || fl.tail then .usage else .files := by
+  obtain ⟨f, r, p, t⟩ := fl
+  cases f <;> cases r <;> cases p <;> cases t <;> rfl
+
+/-- **Every accepted flag combination is covered by the theorems above**: whatever follow plan the command
+    line yields, the transition system it selects – notify or polling reader, configured from /repo, with
+    that `reopen`, started at the end of the file iff `--tail` – delivers, while the file stays in place,
+    exactly the bytes between the start position and the reader's offset, and `Read` does not end. -/
+theorem cli_follow_in_place (fl : Flags) (w : Follow) (hp : plan fl = .follow w) (c0 : List β) :
+    (w.kind = .notify → ∀ s : NSt β, NReach (srcN w.reopen) (ninit (some c0) w.tail) s → s.removes = 0 →
+      s.rd ≠ .ended ∧ ∃ pos, s.f = some ⟨0, start0 (some c0) w.tail, pos⟩ ∧
+        InPlaceOK (s.fs.content 0) s.delivered (start0 (some c0) w.tail) pos) ∧
+    (w.kind = .poll → ∀ s : PSt β, PReach (srcP w.reopen) (pinit (some c0) w.tail) s → s.removes = 0 →
+      s.rd ≠ .ended ∧ InPlaceOK (s.fs.content 0) s.delivered (start0 (some c0) w.tail) s.readBytes) ∧
+    w.reopen = fl.reopen ∧ w.tail = fl.tail ∧ (w.kind = .poll ↔ fl.poll = true) := by
+  refine ⟨?_, ?_, ?_⟩
+  · intro _ s hr hrm
+    refine ⟨?_, delivered_is_prefix c0 w.tail w.reopen hr hrm⟩
+    intro he
+    have := (blocks_while_exists (some c0) w.tail w.reopen hr he).2
+    omega
+  · intro _ s hr hrm
+    refine ⟨?_, (delivered_is_prefix_poll c0 w.tail w.reopen hr hrm).2⟩
+    intro he
+    have := (blocks_while_exists_poll c0 w.tail w.reopen hr he).2
+    omega
+  · rw [wiring_plan] at hp
+    obtain ⟨f, r, p, t⟩ := fl
+    cases f <;> cases r <;> cases p <;> cases t <;> simp at hp <;> subst hp <;> simp
+
+/-- Non-vacuity: `-F` alone follows (notify, re-open, from the start); `--poll --tail` alone is refused. -/
+example : plan ⟨false, true, false, false⟩ = .follow ⟨.notify, true, false⟩ ∧
+    plan ⟨false, false, true, true⟩ = .usage ∧ plan ⟨true, false, true, true⟩ = .follow ⟨.poll, false, true⟩ ∧
+    plan ⟨false, false, false, false⟩ = .files := by decide
+
+/-- **No followed file starves another.**  In every reachable state of `TailFilesToChan`'s goroutines
+    (`Rare.C15.Multi`, any number of files, any channel capacity), whatever the other followers are doing –
+    e.g. blocked in `Read` for ever, as every follower of a quiet file is –
+    * a file whose follower has not been started yet can be started right away, and
+    * a running follower that has a batch to send gets it to the consumer by steps of the consumer and ONE
+      step of its own: after them the consumer has received everything that was in flight, then that batch. -/
+theorem multi_no_starvation (fs : List Multi.Follower) (B : Nat) {s : Multi.MSt} (hr : Multi.Reach fs B s) (i : Nat) :
+    (s.ph[i]? = some .waiting →
+      Multi.apply fs B s (.spawn i) = some { s with ph := s.ph.set i (.running 0) }) ∧
+    (∀ k f b, s.ph[i]? = some (.running k) → fs[i]? = some f → f.batches[k]? = some b →
+      ∃ s', Multi.LPath fs B s (List.replicate s.q.length .recv ++ [.handoff i]) s' ∧
+        s'.recvd = s.hist ++ [(i, b)] ∧ s'.ph = s.ph.set i (.running (k + 1))) := by
+  refine ⟨Multi.spawn_enabled fs B s i, ?_⟩
+  intro k f b hp hf hb
+  obtain ⟨s', h1, h2, _, h4⟩ := Multi.batch_gets_through hr i k f b hp hf hb
+  exact ⟨s', h1, h2, h4⟩
+
+end Wiring
 
 /-! ## in-place truncation (copytruncate rotation) – outside the property, behaviour recorded -/
 
